@@ -108,7 +108,7 @@ def formula_kernels(chk, it):
             chk.obligation('FORMULA/reward/%d' % idx, list(s.pc), o.v == spec, inputs, replay=lambda mo: replay(chk),
                            bound='reward = min(2^128-1, (work * speed * 10^6) / (1 * previous speed * previous speed * 2880)), '
                                  'work = [100 *] 2^difficulty (saturating), as an expression tree over exact * and /',
-                           abstract=('bv2int', 'int2bv'))
+                           arith='int')
         if not n:
             raise Inconclusive('calculate_reward has no returning path')
         # ---- dosc_to_erg ----
